@@ -172,6 +172,16 @@ class Run:
         elif tag == "array":
             val = [self.ev(x, y, pos + (i,)) for i, (x, y) in enumerate(zip(e[1], s[1]))]
             know = s[2]
+        elif tag == "access" and self.decl_types.get(key(e[1])) in ("sigin", "sigout", "sigint") and "__elem__" in self.inputs:
+            # an element of a signal array is an indeterminate of its own
+            idxs = []
+            for i, (a, b) in enumerate(zip(e[2], s[2])):
+                idxs.append(self.ev(a[1], b[1], pos + (i,)) if a[0] == "idx" else "comp")
+            if all(isinstance(ix, int) for ix in idxs):
+                val = self.inputs["__elem__"](e[1][1], tuple(idxs))
+            else:
+                val = UNK
+            know = s[3]
         elif tag == "access":
             base = self.read(e[1])
             val = base
@@ -196,9 +206,8 @@ class Run:
                     idxs.append(self.ev(a[1], b[1], pos + (i,)))
                 else:
                     idxs.append("comp")
-            if isinstance(base, list) and len(idxs) == 1 and isinstance(idxs[0], int) and 0 <= idxs[0] < len(base):
-                val = list(base)
-                val[idxs[0]] = rv
+            if isinstance(base, list) and idxs and all(isinstance(ix, int) for ix in idxs):
+                val = _set_nested(base, idxs, rv)
             know = s[4]
         else:
             raise ValueError(tag)
@@ -238,8 +247,10 @@ class Run:
                 pos = (b, i)
                 tag = st[0]
                 if tag == "decl":
-                    for j, (x, y) in enumerate(zip(st[4], s[4])):
-                        self.ev(x, y, pos + ("dim", j))
+                    dims = [self.ev(x, y, pos + ("dim", j)) for j, (x, y) in enumerate(zip(st[4], s[4]))]
+                    if st[3] == "local" and dims and all(isinstance(d, int) and 0 < d <= 16 for d in dims):
+                        for nm in st[2]:       # Circom: the elements of a declared array are 0 until assigned
+                            self.store[key(nm)] = _zeros(dims)
                 elif tag == "subst":
                     val = self.ev(st[4], s[4], pos)
                     if s[5] != "-":
@@ -299,6 +310,8 @@ def check_values(pre, ssa, p, valuations, max_steps=400):
     bad = []
     exercised = 0
     for vi, inputs in enumerate(valuations):
+        inputs = dict(inputs)
+        inputs["__elem__"] = (lambda name, idxs, vi=vi: elem_hash(name, idxs, 3 + vi, p, False))
         r = Run(pre, ssa, p, inputs, max_steps).run()
         for pos, n, val, cv, cd in r.obs:
             if cv != "-":
@@ -315,6 +328,37 @@ def finite_diff(vals, order, p):
     for _ in range(order):
         cur = [(cur[i + 1] - cur[i]) % p for i in range(len(cur) - 1)]
     return cur
+
+
+def _set_nested(base, idxs, rv):
+    """A copy of the (nested) array `base` with the element at `idxs` replaced; UNK when the position does not exist."""
+    if not isinstance(base, list) or not (0 <= idxs[0] < len(base)):
+        return UNK
+    out = list(base)
+    if len(idxs) == 1:
+        out[idxs[0]] = rv
+        return out
+    sub = _set_nested(base[idxs[0]], idxs[1:], rv)
+    if sub is UNK:
+        return UNK
+    out[idxs[0]] = sub
+    return out
+
+
+def _zeros(dims):
+    if not dims:
+        return 0
+    return [_zeros(dims[1:]) for _ in range(dims[0])]
+
+
+def elem_hash(name, idxs, salt, p, small):
+    """Base point (salt 1) and direction (salt 2) of the element `name[idxs]` of a signal array on a line in
+    valuation space. `small`: the line 0, 1, 2, ... (base 0, direction 1 + a small offset per element)."""
+    import hashlib
+    h = int.from_bytes(hashlib.sha256(("%s|%s|%d" % (name, idxs, salt)).encode()).digest()[:32], "big")
+    if small:
+        return 0 if salt == 1 else 1
+    return h % p
 
 
 def _flatten(v):
@@ -337,10 +381,12 @@ def check_degrees(pre, ssa, p, base, direction, names, max_steps=400):
     the indeterminates `names`. Only positions reached on an identical control
     path for every t are compared. Returns (bad, exercised)."""
     runs = []
+    zero_base = all(v == 0 for k, v in base.items() if k != "__elem__")
     for t in range(5):
         inputs = dict(base)
         for n in names:
             inputs[n] = (base.get(n, 0) + t * direction.get(n, 0)) % p
+        inputs["__elem__"] = (lambda name, idxs, t=t: (elem_hash(name, idxs, 1, p, zero_base) + t * elem_hash(name, idxs, 2, p, zero_base)) % p)
         runs.append(Run(pre, ssa, p, inputs, max_steps).run())
     if any(r.hdr_seq != runs[0].hdr_seq for r in runs):
         return [], 0, False
